@@ -1,6 +1,7 @@
 SPECIFICATION Spec
 CONSTANTS
   MaxLen = 4
+  MaxLenNew = 3
   MaxOuter = 2
   MaxInner = 2
   Bodies = {"empty", "h", "cx_u", "arr"}
@@ -11,6 +12,7 @@ INVARIANT WellTypedIffNotCrossed
 INVARIANT ControlsPreserved
 INVARIANT PowersPreserved
 INVARIANT FixIsWellTyped
+INVARIANT StaleWireExact
 INVARIANT DaggerByParity
 INVARIANT FlagsAgreeWithOps
 INVARIANT NormalForm
